@@ -11,6 +11,10 @@ def key_fn(case, obs, verdict):
         return "register-helper:%s:%s-def%s:%s:%s" % (f[1], f[2], f[3], f[4], what)
     if f[0] == "conc":
         return "registry-concurrent:%s:%s:%s-def%s:%s" % ({"h": "config-decode", "r": "registry"}.get(f[1], f[1]), {"N": "new", "F": "factory-calls"}.get(f[2], f[2]), f[3], f[4], "own-config")
+    if f[0] == "sec":
+        return "registry-section:%s:%s:%s" % ({"S": "string-map", "U": "untyped-map", "X": "not-a-map"}.get(f[1], f[1]), f[5], "section-error" if "wrong config section" in verdict else "product-config")
+    if f[0] == "reg":
+        return "registry-lookup:%s:%s" % (f[1], f[2])
     if f[0] == "hookn":
         return "registry-hook-nested:%s:%s" % (f[1], "product-config")
     if f[0] == "hook":
@@ -35,6 +39,7 @@ def run(ctx):
         trusted=[
             "translator harness/cmd/translate register (go/ast over core/register/register.go: one row per helper - declared interface, callee, what each argument is); bridge Gen/RegisterHelpers_bridge.v",
             "kind cases: register.Provider/Limiter/Gun/Aggregator/DataSource/DataSink with and without a default-config function, created through pluginconfig hooks + config.Decode into a field of the kind's interface / factory types; verdict as for hook cases (expected_arg of the shape the user registered)",
+            "sec / reg cases: config sections of every form (string-keyed / untyped map / no map; each spelling of the type key absent, registered name, unknown name, non-string; a non-string key) through the real hooks, and Registry.New/NewFactory for an unregistered type or name; verdict section_ok_b / registered_b (C18_section_creation, C18_lookup_creation): wrong ones are the error result with nothing run",
             "conc cases: G goroutines released together create K products each (Registry.New / calls of one or of per-goroutine factories; through config.Decode + hooks and through a fresh plugin.Registry); the model Model/RegistryConc.v is replayed on the order of default invocations read off the observation, the verdict is conc_b (proved for every schedule: C18_concurrent_products); the driver keeps the model's function-valued state in arrays between steps",
             "extraction: ExtrOcamlBasic only; OCaml driver ocaml/C18/main.ml (parses the harness's event lines into the model's datatypes) + ocaml/common/conv.ml",
             "nest cases: overlapping creations of the same registered entry (the fillConf lets another Registry.New of the same name run to completion, inline or in a second goroutine it waits for); verdict nest_b, proved of the model (C18_overlapping_creations)",
